@@ -915,6 +915,11 @@ func presentationOnly(c *an.Ctx, rule string) {
 			case *ssa.Store:
 				if a, ok := x.Addr.(*ssa.Alloc); ok {
 					walk(a, depth+1)
+				} else if fa, ok := x.Addr.(*ssa.FieldAddr); ok && len(an.MethodObjectLoads(fa)) > 0 {
+					// parked in a field of the run's own method object: followed to where it is picked up again
+					for _, ld := range an.MethodObjectLoads(fa) {
+						walk(ld, depth+1)
+					}
 				} else {
 					okUse = false
 					badUse = "store to " + an.Prov(x.Addr)
